@@ -250,6 +250,25 @@ pub fn map_of_set<T, const N: usize>(s: &Set<T, N>) -> &Map<T, (), N> {
     unsafe { &*(s as *const Set<T, N> as *const Map<T, (), N>) }
 }
 
+/// like `any_map` with a concrete fill level (lets CBMC unroll the crate's slice
+/// loops exactly instead of up to the unwinding bound)
+pub fn any_map_len<K: Shape, V: Shape, const N: usize>(len: usize) -> Map<K, V, N> {
+    assert!(len <= N);
+    let mut m: Map<K, V, N> = Map::new();
+    let mut i = 0;
+    while i < N {
+        m.pairs[i] = MaybeUninit::new((kani::any(), kani::any()));
+        i += 1;
+    }
+    m.len = len;
+    kani::assume(model(&m).wf());
+    m
+}
+
+pub fn any_set_len<T: Shape, const N: usize>(len: usize) -> Set<T, N> {
+    set_of_map(any_map_len::<T, (), N>(len))
+}
+
 pub fn any_set<T: Shape, const N: usize>() -> Set<T, N> {
     set_of_map(any_map::<T, (), N>())
 }
